@@ -1207,13 +1207,12 @@ fn wasm_history_case(rep: &mut Report, cx: &Ctx, objs: &[CMap], text: &str, orig
             }
         }
     }
-    // implementation-consistency oracle: per rule, the last explicit choice of the history, else the curated default, decides what lint runs
+    // lint runs under the curated defaults overlaid with what the Linter itself reports as stored (how the history
+    // shapes the stored configuration is the correspondence above, and the property oracle just before)
     let mut expect_cfg = cx.curated.clone();
-    for u in objs {
-        for (k, v) in u {
-            if v.is_some() {
-                expect_cfg.insert(k.clone(), *v);
-            }
+    for (k, v) in &stored {
+        if v.is_some() {
+            expect_cfg.insert(k.clone(), *v);
         }
     }
     let got = guarded(|| w.lint(text.to_string(), harper_wasm::Language::Plain));
@@ -1226,7 +1225,7 @@ fn wasm_history_case(rep: &mut Report, cx: &Ctx, objs: &[CMap], text: &str, orig
         a.sort();
         b.sort();
         if a != b {
-            rep.fail("overlay", format!("harper_wasm::Linter after {} settings objects lints {} lints; last-explicit-choice-else-default gives {}", objs.len(), a.len(), b.len()), inp.clone());
+            rep.fail("overlay", format!("harper_wasm::Linter after {} settings objects lints {} lints; its stored configuration overlaid on the defaults gives {}", objs.len(), a.len(), b.len()), inp.clone());
         }
         rep.monitor("wasm_history_checked", 1);
     }
@@ -1378,7 +1377,7 @@ fn replay_input(rep: &mut Report, cx: &Ctx, ls: &mut Linters, wasm: &mut Option<
 fn main() {
     let (a, corpus) = hv::cli();
     let mut rep = Report::new(&a.out);
-    rep.rule = "correspondence: T curated table; C random LintGroupConfig operation sequences (3 registers, 0-14 ops over real rule names + unknown/odd keys incl. NUL, quotes, control characters, astral; merges, clears, fills, JSON round trips via serde_json and Config::from_lsp_config); J JSON texts (valid with whitespace/escape/surrogate/duplicate variants + 13 fault classes); P printer; H Hasher::write calls; L LintGroup::lint over groups of test rules built with add/add_pattern_linter/merge_from/set_all_rules_to (names collide, one name in both maps, pattern lints before their chunk). search: curated LintGroup on generated documents (plain 3/4, markdown 1/4) x random on/off/null/absent configurations at six densities: fresh-vs-long-lived, union of single-switch runs, all-off/clear/empty silent, two-way partition (multiset + order), toggle (others keep value and order), unknown keys, save/fill/lint/restore incl. harper-ls generate_diagnostics and harper_wasm::Linter. non-trivial = distinct (text, configuration) with >=2 enabled rules and >=1 lint, or op sequence >=3, or accepted JSON text, or dispatch case with lints".into();
+    rep.rule = "correspondence: T curated table; C random LintGroupConfig operation sequences (3 registers, 0-14 ops over real rule names + unknown/odd keys incl. NUL, quotes, control characters, astral; merges, clears, fills, JSON round trips via serde_json and Config::from_lsp_config); J JSON texts (valid with whitespace/escape/surrogate/duplicate variants + 13 fault classes); P printer; H Hasher::write calls; L LintGroup::lint over groups of test rules built with add/add_pattern_linter/merge_from/set_all_rules_to (names collide, one name in both maps, pattern lints before their chunk). search: curated LintGroup on generated documents (plain 3/4, markdown 1/4) x random on/off/null/absent configurations at six densities: fresh-vs-long-lived, union of single-switch runs, all-off/clear/empty silent, two-way partition (multiset + order), toggle (others keep value and order), unknown keys, save/fill/lint/restore incl. harper-ls generate_diagnostics/generate_code_actions and harper_wasm::Linter; histories of 1-4 settings objects sent to one harper_wasm::Linter (stored configuration = correspondence; last object decides = property oracle, known finding FC11a). thorough adds every one-character key U+0000..U+07FF + a sweep of higher planes through printer/parser/LSP route and 150 documents with all rules on (every rule singly). non-trivial = distinct (text, configuration) with >=2 enabled rules and >=1 lint, or op sequence >=3, or accepted JSON text, or dispatch case with lints".into();
     let cx = Ctx::new();
     let mut ls = Linters { shared: LintGroup::new_curated(cx.dict.clone(), Dialect::American) };
     let mut wasm: Option<harper_wasm::Linter> = None;
@@ -1455,7 +1454,7 @@ fn main() {
     if a.thorough() {
         // every rule singly (and everything-but-that-rule) on documents: 291 x docs
         let mut docs = 0u64;
-        for _ in 0..40 {
+        for _ in 0..150 {
             let text = gen::document(&mut r);
             let all: CMap = cx.names.iter().map(|k| (k.clone(), Some(true))).collect();
             let s = Search { text, parser: "plain".into(), cfg: all, unknown: CMap::new(), toggle: r.pick(&cx.names).clone(), part_seed: r.next() };
